@@ -31,7 +31,7 @@ TReset ==
   /\ LET f == [p \in Paths |-> Rec.fork[p]] IN
      /\ fork' = f /\ tree' = f /\ prevTree' = f
      /\ origin' = [p \in Paths |-> IF f[p].present THEN p ELSE NoPath]
-  /\ phase' = "branch" /\ changes' = <<>> /\ tomb' = [p \in Paths |-> NoPath]
+  /\ phase' = "branch" /\ changes' = <<>> /\ tomb' = [p \in Paths |-> NoPath] /\ ambig' = FALSE
   /\ lastNS' = [status |-> "", src |-> NoPath, dst |-> NoPath]
   /\ ncommit' = 0 /\ nbase' = 0 /\ log' = <<>>
   /\ cid' = Rec.id /\ l' = l + 1 /\ UNCHANGED done
@@ -59,14 +59,20 @@ JudgeC03(obs) ==
                                    /\ m.last = LastLine(tree[pk[1]], pk[2])} : pk \in HeadRules}
   IN
   /\ \A pk \in HeadRules :
-       IF RuleOK(obs, pk[1], pk[2]) THEN TRUE
+       IF ambig \/ RuleOK(obs, pk[1], pk[2]) THEN TRUE
        ELSE PrintT(<<"VIOL", cid, "C03",
                      ToJson([sig |-> Sig(pk[1], pk[2], StatesAt(obs, pk[1], pk[2])),
                              greedy  |-> StatesAt(g, pk[1], pk[2]),
                              idfirst |-> StatesAt(t, pk[1], pk[2]),
                              ops |-> OpNames])>>)
-  /\ IF mapped = obs THEN TRUE
-     ELSE PrintT(<<"UNMAPPED", cid, ToJson(obs \ mapped)>>)
+  \* a marker on lines that hold no rule at HEAD: a phantom entry was linted
+  /\ \A m \in IF ambig THEN {} ELSE obs \ mapped :
+       PrintT(<<"VIOL", cid, "C03",
+                ToJson([sig |-> [base |-> <<>>, head |-> <<>>, rule |-> 0, moved |-> FALSE, fresh |-> FALSE, acc |-> {},
+                                 obs |-> {m.state}, path |-> m.path, k |-> 0],
+                        greedy |-> {x.state : x \in {y \in g : y.path = m.path /\ y.first = m.first /\ y.last = m.last}},
+                        idfirst |-> {x.state : x \in {y \in t : y.path = m.path /\ y.first = m.first /\ y.last = m.last}},
+                        ops |-> OpNames, phantom |-> m])>>)
   /\ PrintT(<<"MODE", cid, IF obs = g THEN 1 ELSE 0, IF obs = t THEN 1 ELSE 0>>)
   /\ IF obs = g \/ obs = t THEN TRUE
      ELSE PrintT(<<"DRIFT", cid, "C03", ToJson([greedy |-> g, twopass |-> t, observed |-> obs, ops |-> OpNames])>>)
@@ -85,7 +91,7 @@ JudgeC20(obsSeq) ==
       locs == {[path |-> w.path, first |-> w.first, last |-> w.last] : w \in (sets \ doc) \cup (doc \ sets)}
       at(ws, loc) == {w \in ws : w.path = loc.path /\ w.first = loc.first /\ w.last = loc.last}
   IN
-  /\ \A loc \in locs :
+  /\ \A loc \in IF ambig THEN {} ELSE locs :
         LET d == at(doc, loc)
             o == at(sets, loc) IN
         PrintT(<<"VIOL", cid, "C20",
@@ -97,18 +103,25 @@ JudgeC20(obsSeq) ==
   /\ IF (obs = g \/ obs = t) /\ Cardinality(obs) = Len(obsSeq) THEN TRUE
      ELSE PrintT(<<"DRIFT", cid, "C20", ToJson([greedy |-> g, twopass |-> t, observed |-> obsSeq, ops |-> OpNames])>>)
 
+\* the line arithmetic of the spec equals where the harness actually wrote the rules (counted while rendering)
+LayoutOK(lay) ==
+  {lay[i] : i \in 1..Len(lay)} =
+  {[path |-> pk[1], k |-> pk[2], first |-> FirstLine(tree[pk[1]], pk[2]), last |-> LastLine(tree[pk[1]], pk[2])] :
+     pk \in UNION {{<<p, k>> : k \in 1..Len(tree[p].rules)} : p \in Paths}}
+
 TFinish ==
   /\ l <= Len(TraceLog) /\ Rec.ev = "Finish"
+  /\ IF LayoutOK(Rec.layout) THEN TRUE ELSE PrintT(<<"LAYOUTDRIFT", cid, ToJson(Rec.layout)>>)
   /\ JudgeC03({Rec.markers[i] : i \in 1..Len(Rec.markers)})
   /\ JudgeC20(Rec.deps)
-  /\ PrintT(<<"NDEPS", cid, Len(Rec.deps), Cardinality(DocWarnings)>>)
+  /\ PrintT(<<"NDEPS", cid, Len(Rec.deps), Cardinality(DocWarnings), IF ambig THEN 1 ELSE 0>>)
   /\ IF Len(Rec.other) = 0 THEN TRUE ELSE PrintT(<<"OTHER", cid, ToJson(Rec.other)>>)
   /\ l' = l + 1 /\ UNCHANGED <<vars, cid, done>>
 
 \* pint produced no report at all (reproducibly)
 TFailed ==
   /\ l <= Len(TraceLog) /\ Rec.ev = "Failed"
-  /\ PrintT(<<"FAILED", cid, Rec.err>>)
+  /\ PrintT(<<"FAILED", cid, ToJson([err |-> Rec.err, stderr |-> Rec.stderr, ops |-> OpNames])>>)
   /\ l' = l + 1 /\ UNCHANGED <<vars, cid, done>>
 
 TDone ==
